@@ -1,7 +1,4 @@
 #!/bin/bash
-# tools/run_seeded_all.sh: every seeded change against the check of its own property; one line each
+# tools/run_seeded_all.sh: every seeded change against the check of its own property (quick tier)
 cd /verif
-for d in seeded/*/; do
-  id=$(basename $d); p=${id%%-*}
-  tools/try_seeded.sh $id $p 2>&1 | tail -1
-done
+for d in seeded/*/; do id=$(basename $d); tools/try_seeded.sh $id; done
